@@ -213,7 +213,76 @@ def activation_revalidates(ctx):
                 ctx.ob(P, 'RF2-pdo-activate', f, site, 'activated' if ok else 'refused before ObjNum is stored')
 
 
+def event_write(ctx):
+    """18xxh:05 written on a live TPDO (node OPERATIONAL, COB-ID valid): running event / inhibit timers are stopped
+    and the cached event time follows the written value for EVERY value (0 included: the TPDO stops its cyclic
+    transmission for good); a timer is armed iff the new time is non-zero.  Otherwise only the entry is stored
+    (the cache is reloaded by COTPdoReset when the PDO goes live)."""
+    m = ctx.m
+    f = 'COTPdoEventWrite'
+    m.need(f)
+    props = ['C12', 'C14']
+    NONE = m.enum('CO_ERR_NONE')
+    OPER = m.enum('CO_OPERATIONAL')
+    PREOP = m.enum('CO_PREOP')
+    n = 0
+    for mode in (OPER, PREOP):
+        for valid in (0, 1):
+            for ev_run in (0, 1):
+                for val in (0, 1, 100, 0xFFFF, None):
+                    ticks = None if val is None else val
+                    inputs = {'obj->Key': 0x18010500, 'size': 2, 'call:COTInt16Write': NONE,
+                              'out:CODictRdLong:2': 0x181 if valid else (OFF | 0x181), 'node->Nmt.Mode': mode,
+                              'node->TPdo[1].EvTmr': 3 if ev_run else -1, 'node->TPdo[1].InTmr': -1,
+                              'node->TPdo[1].Event': 77, 'call:COTmrDelete': 0, 'call:COTmrCreate': 6}
+                    # the entry itself is not mappable: storing it triggers no TPDO, the TPDO record is as before
+                    inputs['post:COTInt16Write'] = {'node->TPdo[1].EvTmr': 3 if ev_run else -1, 'node->TPdo[1].InTmr': -1,
+                                                    'node->TPdo[1].Event': 77, 'node->Nmt.Mode': mode}
+                    if val is not None:
+                        inputs['*buffer'] = val
+                        inputs['call:COTmrGetTicks'] = ticks
+                    pe = PEval(m, f)
+                    pe.record_sets = False
+                    pe.store_filter = lambda k, fld: fld is not None and fld[0] == 'CO_TPDO'
+                    base = dict((prm[0], 1) for prm in m.funcs[f].params if is_pointer(prm[2]))
+                    base.update(inputs)
+                    trs = pe.run(base)
+                    site = '1801h:05 mode=%s cob-id-valid=%d event-timer-running=%d value=%s' % (
+                        'OPERATIONAL' if mode == OPER else 'PRE-OP', valid, ev_run, 'any' if val is None else val)
+                    bad = None
+                    live = (mode == OPER and valid)
+                    for t in trs:
+                        names = t.call_names()
+                        st = dict((e[1].split('.')[-1], e[2]) for e in t.stores())
+                        cr = [c for c in t.calls() if c[1] == 'COTmrCreate']
+                        if t.ret != NONE:
+                            bad = 'accepted write returns %s' % t.ret
+                        elif ev_run and 'COTmrDelete' not in names:
+                            bad = 'running event timer is not stopped'
+                        elif live and 'Event' not in st:
+                            bad = 'the cached event time is not updated on a path (keeps the previous period: the next ' \
+                                  'transmission re-arms the event timer with it)'
+                        elif live and val is not None and st.get('Event') != ticks:
+                            bad = 'cached event time becomes %s, required %s' % (st.get('Event'), ticks)
+                        elif live and val is not None and (len(cr) != (1 if ticks > 0 else 0)):
+                            bad = 'event timer created %d times for period %s' % (len(cr), ticks)
+                        elif live and cr and cr[0][2][1:3] != [st.get('Event'), 0]:
+                            bad = 'event timer armed with %s, required one-shot of the cached event time' % cr[0][2][1:3]
+                        elif not live and cr:
+                            bad = 'event timer armed although the TPDO is not live'
+                    if not trs:
+                        bad = 'no path'
+                    n += 1
+                    if bad:
+                        ctx.ob(props, 'RF2-pdo-event', f, site, None)
+                        ctx.find(props, 'RF2-pdo-event', f, 'event:%s' % bad.split(':')[0][:60], m.loc(f, m.funcs[f].line), '%s: %s' % (site, bad))
+                    else:
+                        ctx.ob(props, 'RF2-pdo-event', f, site, 'ok')
+    ctx.inst('RF2.pdo-write.event.rows', n)
+
+
 def run(ctx):
+    event_write(ctx)
     map_write(ctx)
     num_write(ctx)
     type_write(ctx)
